@@ -6,7 +6,7 @@ import numpy as np
 from hypothesis import strategies as st
 
 from vf import harness
-from vf.ceosgen import product
+from vf.ceosgen import model, product
 from vf.props import common
 
 ID = "C17"
@@ -116,7 +116,7 @@ def run_case(case):
                 continue
             want = instant_ns(inst, res)
             if got != want:
-                delta = int((got - want) / np.timedelta64(1, "ns"))
+                delta = model.delta_ns(got, want)
                 out.append(harness.disc("value", where, want, got, delta_ns=delta, all_deltas_ns=[delta]))
     return out
 
